@@ -186,6 +186,8 @@ def run(ctx):
         r.instance("R20-a", key, "ok" if (ident_ok and prop_ok) else "violation", where, {"ops": a})
     r.floor("R20-a", full_seen, 1, "paths performing the full write/rename/rename sequence")
     # R20-e: are the sibling names injective in the file name?
+    import c08
+    c08.buffer_has_only_pipeline_writers(ctx, "R20-f")     # shared with C08: "unchanged files get no .bk" needs the formatted and the original text to be produced alike
     r.rule("R20-e", "the backup and temporary names are an injective function of the file's name (derived by appending to the whole "
                     "name): with Path::with_extension — which *replaces* the extension — `a.rs` and `a.inc` share `a.bk` and "
                     "`a.tmp`, and a module file called `b.tmp` is the temporary file of `b.rs`; the second writer destroys the "
